@@ -356,6 +356,21 @@ func (C04) Run(t *testing.T, plan *kernel.Plan, keepLog bool) *kernel.Result {
 		for _, row := range rows {
 			script = append(script, Stmt{SQL: fmt.Sprintf("SELECT %s FROM t1 WHERE id = %d", strings.Join(colNames, ", "), row.id), Tag: fmt.Sprintf("final:%d", row.id)})
 		}
+		// consistent tokenization: the owner finds a row by the value of a tokenized column, bound as the second
+		// parameter after a value for an ordinary column (the proxy replaces it by the token; a value that went
+		// through unreplaced would also show in the database-side stream)
+		for k, row := range rows {
+			if k >= 2 {
+				break
+			}
+			for ci, c := range cols {
+				if c.Token == "" {
+					continue
+				}
+				script = append(script, Stmt{SQL: fmt.Sprintf("SELECT id FROM t1 WHERE plain = $1 AND %s = $2", c.Name), Extended: true,
+					Params: [][]byte{[]byte(row.plain), []byte(row.vals[ci])}, Tag: fmt.Sprintf("find:%d:%d", row.id, ci)})
+			}
+		}
 		run := pw.RunSession(owner, script)
 		if w.Res.Cut {
 			return
@@ -451,6 +466,17 @@ func (C04) Run(t *testing.T, plan *kernel.Plan, keepLog bool) *kernel.Result {
 					if string(cell) != row.vals[ci] {
 						w.Violate("C04", "owner-reads-original", "pg/"+c.describe(), fmt.Sprintf("row %d column %s: wrote %q, read %.80q (type oid %d)", row.id, c.Name, row.vals[ci], cell, res.Fields[2+ci].DataTypeOID))
 					}
+				}
+			}
+			if strings.HasPrefix(st.Tag, "find:") {
+				var id, ci int
+				fmt.Sscanf(st.Tag, "find:%d:%d", &id, &ci)
+				found := false
+				for _, r := range res.Rows {
+					found = found || (len(r) == 1 && string(r[0]) == strconv.Itoa(id))
+				}
+				if res.Err != "" || !found {
+					w.Violate("C04", "owner-finds-row-by-tokenized-value", "pg/"+cols[ci].describe(), fmt.Sprintf("%s with (%q, %q): err=%q rows=%q", st.SQL, st.Params[0], st.Params[1], res.Err, res.Rows))
 				}
 			}
 			if st.Tag == "plain-select" {
